@@ -343,10 +343,10 @@ def compare_c06(proto, body, m, impl, vals, resvals, rblk_ptrs, engine='gen'):
         g_ov = int.from_bytes(outs[VAO + 8:VAO + 16], 'little')
         g_rs = int.from_bytes(outs[VAO + 16:VAO + 24], 'little')
         if (g_gp, g_fp, g_ov - rsp_before) != (gp, fp, ovm):
-            bad.append('va_list after va_start: gp_offset=%d fp_offset=%d overflow_arg_area=args+%d, model %d,%d,args+%d' % (
+            bad.append('tie: va_list after va_start: gp_offset=%d fp_offset=%d overflow_arg_area=args+%d, model %d,%d,args+%d' % (
                 g_gp, g_fp, g_ov - rsp_before, gp, fp, ovm))
         if g_rs != rsp_before - 192:  # generated prologue and interpreter shim both put it at entry_rsp-184
-            bad.append('va_list reg_save_area = entry_rsp%+d, frame model entry_rsp-184' % (g_rs - (rsp_before - 8)))
+            bad.append('tie: va_list reg_save_area = entry_rsp%+d, frame model entry_rsp-184' % (g_rs - (rsp_before - 8)))
     kind = body['kind']
     if kind in ('pressure', 'call'):
         got = int.from_bytes(outs[XO:XO + 8], 'little')
@@ -485,21 +485,21 @@ def compare_frame(obs, row, vararg):
     if obs['sub'] is None:
         # no prologue at all: legal only when nothing needs saving and there is no frame
         if row['saves'] or obs['slots'] or vararg:
-            bad.append('function has no prologue but uses callee-saved registers %s / stack slots' % [r for r, _ in row['saves']])
+            bad.append('tie: function has no prologue but uses callee-saved registers %s / stack slots' % [r for r, _ in row['saves']])
         return bad
     if not row['found']:
-        bad.append('frame size %d is not a size the frame model produces for >= %d stack slots' % (obs['sub'], min_slots(obs, vararg)))
+        bad.append('tie: frame size %d is not a size the frame model produces for >= %d stack slots' % (obs['sub'], min_slots(obs, vararg)))
         return bad
     if obs['sub'] % 16 != 8:
-        bad.append('sub rsp, %d leaves rsp misaligned' % obs['sub'])
+        bad.append('tie: sub rsp, %d leaves rsp misaligned' % obs['sub'])
     if obs['saves'] != row['saves']:
-        bad.append('prologue saves %s, frame model (callee-saved registers used in the body, at the model\'s offsets) %s' % (obs['saves'], row['saves']))
+        bad.append('tie: prologue saves %s, frame model (callee-saved registers used in the body, at the model\'s offsets) %s' % (obs['saves'], row['saves']))
     if obs['restores'] != obs['saves']:
-        bad.append('epilogue restores %s but prologue saved %s' % (obs['restores'], obs['saves']))
+        bad.append('tie: epilogue restores %s but prologue saved %s' % (obs['restores'], obs['saves']))
     if vararg and obs['regsave'] != row['regsave']:
-        bad.append('register save area stores %s, model %s' % (obs['regsave'], row['regsave']))
+        bad.append('tie: register save area stores %s, model %s' % (obs['regsave'], row['regsave']))
     if not obs['epilog_ok']:
-        bad.append('epilogue does not restore rsp/rbp as the frame model prescribes')
+        bad.append('tie: epilogue does not restore rsp/rbp as the frame model prescribes')
     return bad
 
 
